@@ -49,9 +49,8 @@ class Model:
     def remove_fully(self, key):
         e = self.index.get(key)
         if e is not None:
-            if e["integrity"] not in self.content:
-                return False  # content unlink fails first: nothing changes
-            self.content.pop(e["integrity"], None)
+            self.damaged.discard(e["integrity"])
+            self.content.pop(e["integrity"], None)   # an already missing content file counts as removed
             self.index.pop(key, None)
         return True
 
